@@ -6,6 +6,7 @@ additive, p dpi/dp = n); in-place parameter changes; ModelIsotherm unit argument
 Point isotherms: data shapes x sizes x literal types x query pressures (below / at first point / mid-segments / knots / last point)
 against the reference interpolant integral written from the definition; unit arguments.
 """
+import itertools
 import math
 
 import numpy
@@ -292,6 +293,24 @@ def work_point(arg):
                     if not o.ok or abs(float(o.value) - base * factor) > 1e-7 * abs(base * factor):
                         v('point-sp-unit-argument', f'spreading_pressure_at({qq:.6g}, {kw}) = {o.value if o.ok else o.brief()} but converting first gives {base * factor:.12g}',
                           base * factor, o.value if o.ok else o.brief(), {'argument': name, 'where': tag.rstrip('0123456789')})
+            # two queries on ONE object with different unit arguments: the second equals the same query on a fresh object
+            variants = [({}, 1.0), (dict(pressure_unit='kPa'), 100.0), (dict(pressure_unit='Pa'), 1e5),
+                        (dict(pressure_mode='relative'), float(ru.c_pressure(1.0, 'absolute', 'bar', 'relative', None, c))), (dict(loading_unit='mol'), 1.0),
+                        (dict(material_unit='kg'), 1.0), (dict(branch='ads'), 1.0)]
+            for tag, q in (qs[0], qs[3], qs[len(qs) // 2]):
+                if tag.startswith('last'):
+                    continue
+                for (kwa, fa), (kwb, fb) in itertools.permutations(variants, 2):
+                    iso = mk()
+                    core.call(iso.spreading_pressure_at, q * fa, **kwa)
+                    got = core.call(iso.spreading_pressure_at, q * fb, **kwb)
+                    want = core.call(mk().spreading_pressure_at, q * fb, **kwb)
+                    out['ev'] += 1
+                    out['nt'] += 1
+                    if want.ok != got.ok or (want.ok and abs(float(got.value) - float(want.value)) > 1e-12 * abs(float(want.value))):
+                        v('point-sp-depends-on-earlier-query', f'spreading_pressure_at({q * fb:.6g}, {kwb}) after spreading_pressure_at({q * fa:.6g}, {kwa}) on the same isotherm = '
+                          f'{got.value if got.ok else got.brief()[:80]} but on a fresh isotherm {want.value if want.ok else want.brief()[:80]}', want.value if want.ok else None,
+                          got.value if got.ok else None, {'second': sorted(kwb) or ['plain']})
     return out
 
 
@@ -308,6 +327,29 @@ def work_modeliso(arg):
     iso = pygaps.ModelIsotherm(model=m, material='c11', adsorbate='N2', temperature=T, **U)
     hi = ml.p_range(name, params)
     with ru.library_tables():
+        # the model's own pressure scale labelled as each of the three modes x every query mode
+        for smode, sunit in (('relative', None), ('relative%', None), ('absolute', 'kPa')):
+            Us = dict(U, pressure_mode=smode, pressure_unit=sunit)
+            iso_s = pygaps.ModelIsotherm(model=ml.mk(name, params, T), material='c11', adsorbate='N2', temperature=T, **Us)
+            for f in (0.1, 0.5):
+                p = f * hi
+                want = core.call(m.spreading_pressure, p)
+                for qmode, qunit in (('relative', None), ('relative%', None), ('absolute', 'bar'), ('absolute', 'Pa')):
+                    try:
+                        q = float(ru.c_pressure(p, smode, sunit, qmode, qunit, c))
+                    except Exception:
+                        continue
+                    kw = dict(pressure_mode=qmode)
+                    if qunit:
+                        kw['pressure_unit'] = qunit
+                    o = core.call(iso_s.spreading_pressure_at, q, **kw)
+                    out['ev'] += 1
+                    out['nt'] += 1
+                    if want.ok and (not o.ok or core.relerr(o.value, want.value) > 1e-8):
+                        out['viol'].append(core.make_violation({'check': 'modeliso-sp-unit-argument', 'model': name, 'stored': smode, 'query': qmode},
+                                                               f'ModelIsotherm[{name}] stored in {smode} {sunit or ""}: spreading_pressure_at({q:.6g}, {kw}) = {o.value if o.ok else o.brief()[:100]} '
+                                                               f'but the model at the converted pressure gives {want.value}', {'model': name, 'stored': [smode, sunit], 'kwargs': kw},
+                                                               want.value, o.value if o.ok else o.brief()))
         for f in (0.1, 0.5):
             p = f * hi
             want = core.call(m.spreading_pressure, p)
